@@ -8,11 +8,11 @@ CONSTANTS Bs, Sizes, Ranks, StatBs, Seeds, Reps
 
 GlweLike == {"glwe", "glwe_c", "lwe"}
 KeyLike == {"ksk", "atk", "tsk", "ggsw", "ggsw_c", "gglwe_c"}
-Stat == {"glwe", "glwe_c", "lwe", "ksk", "ggsw", "ggsw_c", "gglwe_c"}
+Stat == {"glwe", "glwe_c", "lwe", "ksk", "ggsw", "ggsw_c", "gglwe_c", "pk_diff"}
 Base(kind, layout, b, size, rank) == [kind |-> kind, layout |-> layout, n |-> 8, b |-> b, size |-> size, rank |-> rank, sigma10 |-> 32, bound10 |-> 192]
 With(s, f) == [x \in DOMAIN s \cup DOMAIN f |-> IF x \in DOMAIN f THEN f[x] ELSE s[x]]
 \* coefficients per object, to size the number of repetitions (>= 2^14 coefficients per layout)
-Coefs(layout, rank, rin, dnum) == CASE layout = "lwe" -> 1 [] layout \in {"glwe", "glwe_c"} -> 8 [] layout = "ksk" -> 8 * dnum * rank
+Coefs(layout, rank, rin, dnum) == CASE layout = "lwe" -> 1 [] layout \in {"glwe", "glwe_c"} -> 8 [] layout = "pk_diff" -> 8 * (rank + 1) [] layout = "ksk" -> 8 * dnum * rank
                                    [] layout = "gglwe_c" -> 8 * dnum * rin [] OTHER -> 8 * dnum * (rank + 1)
 RepsFor(layout, rank, rin, dnum) == (Reps + Coefs(layout, rank, rin, dnum) - 1) \div Coefs(layout, rank, rin, dnum)
 
@@ -25,12 +25,12 @@ Next == /\ c.kind = "none"
            \/ \E l \in KeyLike, b \in Bs, s \in Sizes, r \in Ranks, dn \in 1..3, ds \in 1..2, ri \in 1..3 :
                 /\ s * b <= 24 /\ s > ds /\ dn * ds <= s /\ (l # "gglwe_c" => ri = 1)
                 /\ c' = With(Base("dep", l, b, s, r), [dnum |-> dn, dsize |-> ds, rin |-> ri])
-           \/ \E l \in Stat, b \in StatBs, r \in {1, 2} :
+           \/ \E l \in Stat, b \in StatBs, r \in {1, 2}, be \in 0..3 :
                 LET s == IF l \in GlweLike THEN 3 ELSE 4
                     dn == 2
                     ri == IF l = "gglwe_c" THEN 2 ELSE 1
                 IN /\ (l = "lwe" => r = 1)
-                   /\ c' = With(Base("stat", l, b, s, r), [dnum |-> dn, dsize |-> 1, rin |-> ri, nlwe |-> 6, koff |-> 0, reps |-> RepsFor(l, r, ri, dn)])
+                   /\ c' = With(Base("stat", l, b, s, r), [dnum |-> dn, dsize |-> 1, rin |-> ri, nlwe |-> 6, koff |-> 0, be |-> be, reps |-> RepsFor(l, r, ri, dn)])
            \/ \E l \in {"glwe_c", "gglwe_c", "ggsw_c"}, b \in Bs, s \in Sizes, r \in Ranks, dn \in 1..3, ds \in 1..2, ri \in 1..3, xa \in Seeds, xe \in Seeds, ko \in {0, 1} :
                 /\ s * b <= 24 /\ (l # "glwe_c" => (s > ds /\ dn * ds <= s /\ ko = 0)) /\ (l = "glwe_c" => (dn = 1 /\ ds = 1))
                 /\ (l # "gglwe_c" => ri = 1)
